@@ -22,16 +22,31 @@
      * forest_totalb is a theorem (C10_forest_total).
    Pinned code: the soundness statements carry the two guards that its recorded defects require
    (C10_*_refuted); the completeness statements need no guard.
-   STILL PARTIAL: the "if" half of line 1, C10_parse_member_outcomes_partial: for a member of the
-   language parse answers a NON-EMPTY list of trees or the model's out-of-fuel outcome of the TREE
-   ENUMERATION (`trees`); that the enumeration terminates within a computable fuel for grammars
-   without cyclic unit/nullable derivations is not proved (the correspondence run would show an
-   out-of-fuel answer as a disagreement).  The extra hypothesis `defined g cstart = true` of the
-   completeness theorems (the parser object was built for a nonterminal of the grammar) keeps the
-   rule `<> ::= cstart` well-formed; that rule is unreachable, so the hypothesis is presumably
-   removable by a reachability argument (not done). *)
+   PROOF EXTENSION 2 (EarleyAcyclic.v, EarleyAcyclicSpec.v, EarleyCompleteMore.v, EarleyHarnessFuel.v):
+     * line 1 is now proved in full for the grammars the property quantifies over:
+       C10_parse_complete (a member gets a NON-EMPTY list of trees; the tree enumeration `trees`
+       terminates within the SAME fuel bound `fuel_bound` as the chart), C10_parse_iff (line 1 as an
+       equivalence), C10_parse_total (all three lines in one statement: with fuel >= fuel_bound the
+       only outcomes are "member and >= 1 tree, all valid and spelling w" and "non-member and
+       SyntaxError").  Side condition: the boolean `acyclicb (cgram g cstart)`, which is EQUIVALENT
+       (C10_acyclicb_spec) to the declarative "no cyclic unit/nullable derivation A =>+ A" of the
+       property's quantifier.  The condition is necessary FOR THE MODEL
+       (C10_parse_complete_unguarded_refuted): the model enumerates the whole forest before it
+       answers, Python's generator is lazy; such grammars are outside the property.
+     * the hypothesis `defined g cstart = true` is REMOVED from the completeness theorems
+       (C10_reject_sound, C10_accepts_complete, C10_accepts_iff, C10_syntaxerr_iff,
+       C10_parse_complete): chart completeness is proved for derivations of the sub-grammar without
+       the "<>" rule.  It remains in the SOUNDNESS statements about trees (C10_parse_sound,
+       C10_forest_total and hence C10_parse_iff / C10_parse_total).
+     * C10_harness_fuel_ok: the fuel formula of harness/c10.py (`fuel_for`, before its cap) is
+       >= fuel_bound for every grammar and every input not longer than the longest of the grammar,
+       so the fuel theorems apply to every EarleyParser.parse / parse_on case of the run.
+   STILL PARTIAL: nothing of the three lines for acyclic grammars.  Outside the guard
+   (infinitely ambiguous grammars) C10_parse_member_outcomes_partial remains the strongest statement
+   about members: non-empty list of trees or the model's out-of-fuel outcome. *)
 From ISLA Require Import Grammar GrammarFacts Earley EarleyFacts EarleyPrune EarleyTop EarleyTrees
-  EarleyComplete EarleyForest EarleyFuel EarleyWrap.
+  EarleyComplete EarleyForest EarleyFuel EarleyWrap EarleyCompleteMore EarleyAcyclic EarleyAcyclicSpec
+  EarleyHarnessFuel.
 
 (* (1) chart invariant: every item (A -> alpha . beta, origin s) of column j of the finished chart
    satisfies: A -> alpha beta is a rule, alpha =>* w[s..j) *)
@@ -111,16 +126,16 @@ Print Assumptions C10_nullable_complete.
    (cyclic / ambiguous or not), both forms of both defect spots, every fuel (an out-of-fuel run
    answers OtherErr, not SyntaxErr) *)
 Theorem C10_reject_sound : forall g cstart fxA fxB fuel start w k,
-  good_grammar g -> defined g start = true -> defined g cstart = true ->
+  good_grammar g -> defined g start = true ->
   earley_parse fxA fxB fuel g cstart start w k = Raise SyntaxErr -> ~ L g start w.
-Proof. exact reject_sound. Qed.
+Proof. exact reject_sound_nocs. Qed.
 Print Assumptions C10_reject_sound.
 
 (* (3b) the recogniser never answers `false` for a member *)
 Theorem C10_accepts_complete : forall g cstart fxA fxB fuel start w b,
-  good_grammar g -> defined g WRAP = false -> defined g start = true -> defined g cstart = true ->
+  good_grammar g -> defined g WRAP = false -> defined g start = true ->
   L g start w -> earley_accepts fxA fxB fuel g cstart start w = Ok b -> b = true.
-Proof. exact accepts_complete. Qed.
+Proof. exact accepts_complete_nocs. Qed.
 Print Assumptions C10_accepts_complete.
 
 (* (3c) fill_enough_fuel: above the computable bound
@@ -137,28 +152,28 @@ Print Assumptions C10_chart_enough_fuel.
 (* (3d) the recogniser decides membership *)
 Theorem C10_accepts_iff : forall g cstart fxA fxB fuel start w,
   good_grammar g -> NoDup (map fst g) -> defined g WRAP = false ->
-  defined g start = true -> defined g cstart = true ->
+  defined g start = true ->
   (fxA = true \/ K_multistart g start = false) ->
   (fxB = true \/ K_recstart g cstart start = false) ->
   fuel_bound (cgram g cstart) (length w) <= fuel ->
   exists b, earley_accepts fxA fxB fuel g cstart start w = Ok b /\ (b = true <-> L g start w).
-Proof. exact accepts_iff. Qed.
+Proof. exact accepts_iff_nocs. Qed.
 Print Assumptions C10_accepts_iff.
 
 (* (3e) line 2 of the property *)
 Theorem C10_syntaxerr_iff : forall g cstart fxA fxB fuel start w k,
   good_grammar g -> NoDup (map fst g) -> defined g WRAP = false ->
-  defined g start = true -> defined g cstart = true ->
+  defined g start = true ->
   (fxA = true \/ K_multistart g start = false) ->
   (fxB = true \/ K_recstart g cstart start = false) ->
   fuel_bound (cgram g cstart) (length w) <= fuel ->
   (earley_parse fxA fxB fuel g cstart start w k = Raise SyntaxErr <-> ~ L g start w).
-Proof. exact syntaxerr_iff. Qed.
+Proof. exact syntaxerr_iff_nocs. Qed.
 Print Assumptions C10_syntaxerr_iff.
 
-(* (3f) "if" half of line 1.  PARTIAL: a member gets a non-empty list of trees OR the out-of-fuel
-   outcome of the tree enumeration; missing: termination of `trees` within a computable fuel for
-   grammars without cyclic unit/nullable derivations *)
+(* (3f) "if" half of line 1 for ARBITRARY (also infinitely ambiguous) grammars.  PARTIAL: a member
+   gets a non-empty list of trees OR the out-of-fuel outcome of the tree enumeration.  For grammars
+   without cyclic unit/nullable derivations it is superseded by C10_parse_complete below. *)
 Theorem C10_parse_member_outcomes_partial : forall g cstart fxA fxB fuel start w k,
   good_grammar g -> defined g WRAP = false ->
   defined g start = true -> defined g cstart = true ->
@@ -169,6 +184,84 @@ Theorem C10_parse_member_outcomes_partial : forall g cstart fxA fxB fuel start w
   earley_parse fxA fxB fuel g cstart start w k = Raise OutOfFuel.
 Proof. exact parse_member_outcomes. Qed.
 Print Assumptions C10_parse_member_outcomes_partial.
+
+(* ---- TERMINATION of the tree enumeration; line 1 of the property ---- *)
+
+(* the guard: acyclicb is exactly "no cyclic unit/nullable derivation A =>+ A" (ustep: A -> a x c is
+   a rule and every symbol of a and c derives the empty string) *)
+Theorem C10_acyclicb_spec : forall g cstart,
+  good_grammar g -> NoDup (map fst g) -> defined g WRAP = false ->
+  (acyclicb (cgram g cstart) = true <-> acyclic (cgram g cstart)).
+Proof. exact acyclicb_cgram_spec. Qed.
+Print Assumptions C10_acyclicb_spec.
+
+(* (4a) with the fuel of the chart the enumeration of the forest below the accepting item answers
+   (needs fuel (|w|+1) * #rules <= fuel_bound) *)
+Theorem C10_trees_enough_fuel : forall g cstart fxA fxB fuel start w chart st,
+  good_grammar g -> NoDup (map fst g) -> defined g WRAP = false -> defined g start = true ->
+  (fxA = true \/ K_multistart g start = false) ->
+  acyclicb (cgram g cstart) = true ->
+  fuel_bound (cgram g cstart) (length w) <= fuel ->
+  chart_of fxA fuel (cgram g cstart) start w = Ok chart ->
+  find (accepting fxB start) (last chart []) = Some st ->
+  exists ts, ts <> [] /\ trees fuel (cgram g cstart) chart w st (length w) = Some ts.
+Proof. exact trees_enough_fuel. Qed.
+Print Assumptions C10_trees_enough_fuel.
+
+(* (4b) parse_complete, the "if" half of line 1: FULL for grammars without cyclic unit/nullable
+   derivations; pinned and repaired form of the accepting-state choice alike (no K_recstart guard),
+   no assumption on the constructor's start symbol *)
+Theorem C10_parse_complete : forall g cstart fxA fxB fuel start w k,
+  good_grammar g -> NoDup (map fst g) -> defined g WRAP = false ->
+  defined g start = true ->
+  (fxA = true \/ K_multistart g start = false) ->
+  acyclicb (cgram g cstart) = true ->
+  fuel_bound (cgram g cstart) (length w) <= fuel -> 0 < k ->
+  L g start w ->
+  exists ts, ts <> [] /\ earley_parse fxA fxB fuel g cstart start w k = Ok ts.
+Proof. exact parse_complete. Qed.
+Print Assumptions C10_parse_complete.
+
+(* (4c) line 1 of the property *)
+Theorem C10_parse_iff : forall g cstart fxA fxB fuel start w k,
+  good_grammar g -> NoDup (map fst g) -> defined g WRAP = false ->
+  defined g start = true -> defined g cstart = true ->
+  (fxA = true \/ K_multistart g start = false) ->
+  (fxB = true \/ K_recstart g cstart start = false) ->
+  acyclicb (cgram g cstart) = true ->
+  fuel_bound (cgram g cstart) (length w) <= fuel -> 0 < k ->
+  ((exists ts, ts <> [] /\ earley_parse fxA fxB fuel g cstart start w k = Ok ts) <-> L g start w).
+Proof. exact parse_iff. Qed.
+Print Assumptions C10_parse_iff.
+
+(* (4d) the whole property in one statement: with enough fuel parse has exactly two outcomes *)
+Theorem C10_parse_total : forall g cstart fxA fxB fuel start w k,
+  good_grammar g -> NoDup (map fst g) -> defined g WRAP = false ->
+  defined g start = true -> defined g cstart = true ->
+  (fxA = true \/ K_multistart g start = false) ->
+  (fxB = true \/ K_recstart g cstart start = false) ->
+  acyclicb (cgram g cstart) = true ->
+  fuel_bound (cgram g cstart) (length w) <= fuel -> 0 < k ->
+  (L g start w /\ exists t ts, earley_parse fxA fxB fuel g cstart start w k = Ok (t :: ts) /\
+     forall t', In t' (t :: ts) ->
+       wf_tree g t' /\ is_openT t' = false /\ lbl t' = start /\ yield t' = w) \/
+  (~ L g start w /\ earley_parse fxA fxB fuel g cstart start w k = Raise SyntaxErr).
+Proof. exact parse_total. Qed.
+Print Assumptions C10_parse_total.
+
+(* (4e) the fuel that harness/c10.py passes (fuel_for, before the cap) is above the bound of the
+   theorems: hsum = sum over the alternatives a of the canonical grammar of |a| + 1 + sum |tokens|,
+   harness_fuel g n = (hsum g + 4) * (n + 2) + 20, n = longest input of the grammar *)
+Theorem C10_harness_fuel_ok : forall g cstart m n,
+  m <= n -> fuel_bound (cgram g cstart) m <= harness_fuel g n.
+Proof. exact harness_fuel_ok. Qed.
+Print Assumptions C10_harness_fuel_ok.
+
+Theorem C10_harness_fuel_capped_ok : forall g cstart m n cap,
+  m <= n -> harness_fuel g n <= cap ->
+  fuel_bound (cgram g cstart) m <= Nat.min cap (harness_fuel g n).
+Proof. exact harness_fuel_capped_ok. Qed.
+Print Assumptions C10_harness_fuel_capped_ok.
 
 (* the boolean class of canonical grammars gives the Prop-level hypotheses *)
 Theorem C10_canonical_form : forall g, canonical_form g = true -> good_grammar g /\ defined g WRAP = false.
@@ -245,3 +338,31 @@ Example C10_complete_hypotheses_satisfiable :
   earley_parse true true 100 G_multi START START [99]%N 8 = Raise SyntaxErr.
 Proof. exact complete_hypotheses_satisfiable. Qed.
 Print Assumptions C10_complete_hypotheses_satisfiable.
+
+(* non-vacuity of the hypotheses of C10_parse_complete / C10_parse_iff / C10_parse_total with the
+   harness' fuel: ambiguous grammar <e> ::= <e>+<e> | a, both trees of a+a+a delivered, a+ rejected *)
+Example C10_parse_complete_hypotheses_satisfiable :
+  canonical_form G_amb = true /\ NoDup (map fst G_amb) /\ defined G_amb START = true /\
+  K_multistart G_amb START = false /\ K_recstart G_amb START START = false /\
+  acyclicb (cgram G_amb START) = true /\
+  fuel_bound (cgram G_amb START) 5 <= harness_fuel G_amb 5 /\
+  L G_amb START [97;43;97;43;97]%N /\
+  (exists t1 t2, earley_parse false false (harness_fuel G_amb 5) G_amb START START [97;43;97;43;97]%N 8 = Ok [t1; t2]
+                 /\ wf_treeb G_amb t1 = true /\ wf_treeb G_amb t2 = true) /\
+  earley_parse false false (harness_fuel G_amb 5) G_amb START START [97;43]%N 8 = Raise SyntaxErr /\
+  canonical_form G_ex = true /\ acyclicb (cgram G_ex START) = true /\
+  canonical_form G_multi = true /\ acyclicb (cgram G_multi START) = true.
+Proof. exact parse_complete_hypotheses_satisfiable. Qed.
+Print Assumptions C10_parse_complete_hypotheses_satisfiable.
+
+(* the guard acyclicb cannot be dropped FOR THE MODEL: <a> ::= <b> | "a", <b> ::= <a><b> | "" has
+   <a> =>+ <a>; "a" is a member, accepted by the recogniser, and the (non-lazy) tree enumeration
+   of the model answers out-of-fuel where Python's lazy generator yields a first tree *)
+Example C10_parse_complete_unguarded_refuted :
+  canonical_form G_cyc = true /\ NoDup (map fst G_cyc) /\ K_multistart G_cyc START = false /\
+  acyclicb (cgram G_cyc START) = false /\
+  L G_cyc START [97]%N /\ fuel_bound (cgram G_cyc START) 1 <= 200 /\
+  earley_accepts true true 200 G_cyc START START [97]%N = Ok true /\
+  earley_parse true true 200 G_cyc START START [97]%N 1 = Raise OutOfFuel.
+Proof. exact parse_complete_unguarded_refuted. Qed.
+Print Assumptions C10_parse_complete_unguarded_refuted.
